@@ -8,7 +8,7 @@ TIE_TTLCODE = [(f"TieTtlCode.{n}", "Relay.Tie.TtlCode") for n in
                ["submit_tie", "exchange_tie", "exchange_unknown", "clean_tie", "deleteByBooking_tie", "count_tie", "good_after", "coverage"]]
 # the assumption "each store method is one atomic step" is C12's lock-discipline obligation over the REGENERATED lock table:
 # every property that makes the assumption audits it too
-TIE_LOCKS = [(f"C12.{n}", "Relay.Props.C12") for n in ["all_wellLocked", "stores_race_free", "store_methods_single_section", "store_ops_linearizable"]]
+TIE_LOCKS = [(f"C12.{n}", "Relay.Props.C12") for n in ["all_wellLocked", "stores_race_free", "store_methods_single_section", "store_ops_linearizable", "no_blocking_under_lock"]]
 TIE_DENY = TIE_DENY + TIE_LOCKS
 TIE_TTLCODE = TIE_TTLCODE + TIE_LOCKS
 TIE_CHANMAP = [(f"TieChanMap.{n}", "Relay.Tie.ChanMap") for n in
